@@ -2,10 +2,11 @@
 import json, os
 
 RULE = ("V: every sequence of protobuf wire tokens (level, field number, wire type, value symbol, truncation) of length <= 3 "
-        "over PayloadWire.tla's alphabet (24 token kinds quick / 60 thorough: every known field with right and wrong wire "
+        "over PayloadWire.tla's alphabet (25 token kinds quick / 64 thorough: every known field with right and wrong wire "
         "types, the boundary values 0, 1, 2^32-1, 2^32, 2^64-1 as symbols, Cookie/Hmac/reserved/unknown fields of every wire "
         "type incl. groups, truncated tags / varints / lengths / groups at both nesting levels) plus every sequence of length "
-        "4 (4..5 thorough) over a 10-kind core alphabet, plus the payload lattice (405 payloads) is one TLC state; TLC checks "
+        "4 (4..5 thorough) over a 10-kind core alphabet (thorough also: length 4 over the 25-kind alphabet), plus the payload "
+        "lattice (405 payloads) is one TLC state; TLC checks "
         "the link (decoder machine on both Details groupings = last-wins reference), Decode(Encode(p)) = p and four more laws "
         "on each and emits the expected result; every sequence is serialised with protowire in up to 4 concretisations "
         "(Details grouped / one per token / random split, minimal and padded varints) and decoded by the real "
@@ -37,10 +38,17 @@ def run(ctx):
     from tools.check import MachineryError
     spec = ctx.spec_dir()
     cfg = open(spec + '/Vec_PayloadWire.cfg').read()
-    if not ctx.quick:
-        cfg = cfg.replace('Alpha = "quick"', 'Alpha = "full"').replace('CoreLen = 4', 'CoreLen = 5')
     na = ctx.tlc_vectors('PayloadWire', 'Vec_PayloadWire_alphabet.cfg', out='alphabet.ndjson', sample=1)
-    n = ctx.tlc_vectors('PayloadWire', 'Vec_PayloadWire_run.cfg', cfgtext=cfg, timeout=2400)
+    if ctx.quick:
+        n = ctx.tlc_vectors('PayloadWire', 'Vec_PayloadWire_run.cfg', cfgtext=cfg, timeout=2400)
+    else:
+        # two runs (bounds the memory of the dump parser): full alphabet up to length 3 + core alphabet at lengths 4..5 +
+        # the payload lattice; then the quick alphabet at length 4
+        n = ctx.tlc_vectors('PayloadWire', 'Vec_PayloadWire_run.cfg', timeout=2400,
+                            cfgtext=cfg.replace('Alpha = "quick"', 'Alpha = "full"').replace('SmallLens = {4}', 'SmallLens = {4, 5}'))
+        n += ctx.tlc_vectors('PayloadWire', 'Vec_PayloadWire_run2.cfg', out='vectors_2.ndjson', timeout=2400, sample=1,
+                             cfgtext=cfg.replace('Lens = {0, 1, 2, 3}', 'Lens = {4}').replace('SmallLens = {4}', 'SmallLens = {}')
+                             .replace('Lattice = TRUE', 'Lattice = FALSE'))
     ctx.extra['vectors'] = n
     ctx.extra['alphabet'] = na
     res = ctx.gotest('handshake', 'TestVerif_C08', timeout=1800)
